@@ -18,12 +18,13 @@ import (
 const ifaceID uint64 = 0xf00dfeedf00dfeed
 
 const (
-	mEcho    uint16 = 0 // returns arg+1
-	mHold    uint16 = 1 // blocks until cancelled / released
-	mGetCap  uint16 = 2 // returns a capability hosted by the callee in pointer 0
-	mCallCap uint16 = 3 // local server only: calls echo on the capability in pointer 0, returns its result
-	mLoopCap uint16 = 4 // peer only: returns the capability it was given (receiverHosted) in pointer 0
-	mExc     uint16 = 5 // returns an exception
+	mEcho      uint16 = 0 // returns arg+1
+	mHold      uint16 = 1 // blocks until cancelled / released
+	mGetCap    uint16 = 2 // returns a capability hosted by the callee in pointer 0
+	mCallCap   uint16 = 3 // local server only: calls echo on the capability in pointer 0, returns its result
+	mLoopCap   uint16 = 4 // peer only: returns the capability it was given (receiverHosted) in pointer 0
+	mExc       uint16 = 5 // returns an exception
+	mGetCapAck uint16 = 6 // local server only: getcap that acknowledges delivery before returning
 )
 
 type capDesc struct {
